@@ -250,6 +250,13 @@ func serveTCPSocket(conn *net.TCPConn, addr *net.TCPAddr, inbound chan<- Service
 			return
 		}
 
+		// The total length includes the header that has only been peeked at so far; a smaller value
+		// would never consume it and the framing of the stream is lost.
+		if totalLen < 6 {
+			util.Log(conn, "Total length %d is shorter than the header", totalLen)
+			return
+		}
+
 		buffer := make([]byte, totalLen)
 		len, err := io.ReadFull(connBuffer, buffer)
 		if err != nil {
